@@ -37,6 +37,13 @@ func (v *VerifC09Sink) Process(ents []*server.Entity) error {
 }
 func (v *VerifC09Sink) End() error { return v.sink.endFullSync(context.Background(), v.runner) }
 
+// EndCancelled is the end call of a job run whose context was cancelled after its last page.
+func (v *VerifC09Sink) EndCancelled() error {
+	ctx, cancel := context.WithCancel(context.Background())
+	cancel()
+	return v.sink.endFullSync(ctx, v.runner)
+}
+
 // ---- the same three calls issued by the real FullSyncPipeline.sync, page by page ----
 
 type verifC09Cmd struct {
